@@ -1,8 +1,13 @@
 import Asts.Model.Revisions
 namespace Asts
 
+/-! `StatefulSetController.sync` (stateful_set.go) followed by `UpdateStatefulSet` (stateful_set_control.go), as a function
+    from a snapshot (cached set, API copy of the set, stored revisions, cached pods) and a fault plan to the ordered log of API
+    calls, the status written, the final revision store and the outcome. -/
+
 /-- a pod in the informer cache, as `getPodsForStatefulSet` sees it -/
 structure CPod where
+  name     : String
   pod      : Pod
   owner    : Owner      -- controller reference
   selMatch : Bool       -- labels satisfy the selector
@@ -12,7 +17,7 @@ structure CPod where
 inductive Decision | keep | adopt | release | ignore
   deriving DecidableEq, Repr
 
-/-- `ClaimObject` (controller_ref_manager.go:78-141) as a pure decision -/
+/-- `ClaimObject` (controller_ref_manager.go) as a pure decision -/
 def claimDecision (setDeleting : Bool) (c : CPod) : Decision :=
   match c.owner with
   | .other => .ignore
@@ -20,88 +25,325 @@ def claimDecision (setDeleting : Bool) (c : CPod) : Decision :=
   | .none  => if setDeleting || !(c.selMatch && c.member) then .ignore
               else if c.pod.terminating then .ignore else .adopt
 
-inductive PodPatch | adopt (id : Nat) | release (id : Nat)
+inductive ErrKind | conflict | notFound | alreadyExists | invalid | other
   deriving DecidableEq, Repr
 
-inductive PatchResult | ok | notFound | invalid | fail
+/-- an injected fault: the `occ`-th call (0-based) with key `key` fails with `kind` -/
+structure Fault where
+  key  : String
+  occ  : Nat
+  kind : ErrKind
   deriving DecidableEq, Repr
 
-structure ClaimOut where
-  claimed : List Pod := []
-  patches : List PodPatch := []
-  freshGets : Nat := 0          -- uncached GETs of the set issued (CanAdopt runs at most once)
-  failed  : Bool := false       -- aggregate error non-empty
+/-- every API call of one sync in order, failed ones included -/
+structure Tr where
+  log : List String := []
   deriving Repr
 
-/-- `ClaimPods`. `canAdopt` = result of the uncached GET + uid comparison + deletion recheck; evaluated lazily, once. -/
-def claimPods (setDeleting : Bool) (canAdopt : Bool) (res : PodPatch → PatchResult) (pods : List CPod) : ClaimOut :=
-  pods.foldl (fun (o : ClaimOut) c =>
+def Tr.call (t : Tr) (plan : List Fault) (k : String) : Tr × Option ErrKind :=
+  let occ := (t.log.filter (· == k)).length
+  ({ log := t.log ++ [k] }, (plan.find? (fun f => f.key == k && f.occ == occ)).map (·.kind))
+
+structure RevSt where
+  store : List Rev
+  tr    : Tr := {}
+  deriving Repr
+
+/-- `ListRevisions`: two List calls -/
+def listRevsF (plan : List Fault) (s : RevSt) : RevSt × Option (List Rev) :=
+  let (t1, e1) := s.tr.call plan "list:revs"
+  match e1 with
+  | some _ => ({ s with tr := t1 }, none)
+  | none =>
+    let (t2, e2) := t1.call plan "list:revs"
+    match e2 with
+    | some _ => ({ s with tr := t2 }, none)
+    | none => ({ s with tr := t2 }, some (listRevisions s.store))
+
+def foldOk {α β} (xs : List α) (init : β) (f : β → α → β × Bool) : β × Bool :=
+  xs.foldl (fun (acc : β × Bool) x => if acc.2 then f acc.1 x else acc) (init, true)
+
+/-- what the uncached GET of the set returns -/
+structure Fresh where
+  gone     : Bool     -- NotFound
+  uidOk    : Bool     -- same uid as the cached object
+  deleting : Bool     -- carries a deletion timestamp
+  deriving Repr
+
+/-- `adoptOrphanRevisions` (stateful_set.go) + `AdoptOrphanRevisions` (control.go): a set that is being deleted adopts
+    nothing; label-sync of marker-carrying revisions, uncached confirmation (uid, not deleting), then adoption of the
+    orphans only. -/
+def adoptOrphanRevisionsF (plan : List Fault) (setDeleting : Bool) (fresh : Fresh) (s : RevSt) : RevSt × Outcome :=
+  if setDeleting then (s, .ok) else
+  match listRevsF plan s with
+  | (s, none) => (s, .err)
+  | (s, some revs) =>
+    if !(revs.any (·.owner == .none)) then (s, .ok) else
+    let (s, ok) := foldOk revs s fun s r =>
+      if r.marker then
+        let (t, e) := s.tr.call plan s!"update:rev:{r.name}"
+        match e with
+        | some _ => ({ s with tr := t }, false)
+        | none => ({ store := s.store.map (fun x => if x.name == r.name then { x with selMatch := true } else x), tr := t }, true)
+      else (s, true)
+    if !ok then (s, .err) else
+    let (t, e) := s.tr.call plan "get:set"
+    let s := { s with tr := t }
+    if e.isSome || fresh.gone || !fresh.uidOk || fresh.deleting then (s, .err) else
+    let (s, ok) := foldOk revs s fun s r =>
+      if r.owner != .none then (s, true)          -- already controlled by this set
+      else
+        let (t, e) := s.tr.call plan s!"patch:rev:{r.name}"
+        match e with
+        | some _ => ({ s with tr := t }, false)
+        | none => ({ store := s.store.map (fun x => if x.name == r.name then { x with owner := .self } else x), tr := t }, true)
+    (s, if ok then .ok else .err)
+
+structure ClaimOutF where
+  claimed : List CPod := []
+  failed  : Bool := false
+  canAdopt : Option Bool := none      -- memo of the once-only uncached check
+  tr      : Tr
+
+/-- `ClaimPods` with faults: NotFound on either patch and Invalid on release are swallowed on purpose -/
+def claimPodsF (plan : List Fault) (setDeleting : Bool) (fresh : Fresh) (pods : List CPod) (tr : Tr) : ClaimOutF :=
+  pods.foldl (fun (o : ClaimOutF) c =>
     match claimDecision setDeleting c with
-    | .keep => { o with claimed := o.claimed ++ [c.pod] }
+    | .keep => { o with claimed := o.claimed ++ [c] }
     | .ignore => o
     | .release =>
-      let o := { o with patches := o.patches ++ [.release c.pod.id] }
-      match res (.release c.pod.id) with
-      | .fail => { o with failed := true }
-      | _ => o                                        -- ok, NotFound and Invalid are all "released"
+      let (t, e) := o.tr.call plan s!"patch:pod:{c.name}"
+      let o := { o with tr := t }
+      match e with
+      | some .notFound | some .invalid | none => o
+      | some _ => { o with failed := true }
     | .adopt =>
-      let o := { o with freshGets := 1 }
-      if !canAdopt then { o with failed := true }
+      -- CanAdopt: at most one uncached GET per sync
+      let (o, can) := match o.canAdopt with
+        | some b => (o, b)
+        | none =>
+          let (t, e) := o.tr.call plan "get:set"
+          let b := e.isNone && !fresh.gone && fresh.uidOk && !fresh.deleting
+          ({ o with tr := t, canAdopt := some b }, b)
+      if !can then { o with failed := true }
       else
-        let o := { o with patches := o.patches ++ [.adopt c.pod.id] }
-        match res (.adopt c.pod.id) with
-        | .ok => { o with claimed := o.claimed ++ [c.pod] }
-        | .notFound => o
-        | _ => { o with failed := true }) {}
+        let (t, e) := o.tr.call plan s!"patch:pod:{c.name}"
+        let o := { o with tr := t }
+        match e with
+        | none => { o with claimed := o.claimed ++ [c] }
+        | some .notFound => o
+        | some _ => { o with failed := true }) { tr := tr }
+
+/-- `updateControllerRevision`: RetryOnConflict(DefaultBackoff), 4 attempts -/
+def renumberF (plan : List Fault) (name : String) (n : Int) : Nat → RevSt → RevSt × Bool
+  | 0, s => (s, false)
+  | fuel + 1, s =>
+    let (t, e) := s.tr.call plan s!"update:rev:{name}"
+    let s := { s with tr := t }
+    match e with
+    | none => ({ s with store := s.store.map (fun r => if r.name == name then { r with number := n } else r) }, true)
+    | some k =>
+      -- after any failed Update the clone is refreshed with an uncached GET (whose own failure is ignored);
+      -- only a Conflict is retried
+      let (t, _) := s.tr.call plan s!"get:rev:{name}"
+      let s := { s with tr := t }
+      if k == .conflict && fuel != 0 then renumberF plan name n fuel s else (s, false)
+
+/-- `createControllerRevision` with faults: probe names until one is free or holds the same data -/
+def createRevLoopF (h : Hashing) (plan : List Fault) (fresh : Rev) : Nat → Int → RevSt → RevSt × Option (Rev × Int)
+  | 0, _, s => (s, none)
+  | fuel + 1, cc, s =>
+    let nm := h.nameOf fresh.data cc
+    let (t, e) := s.tr.call plan s!"create:rev:{nm}"
+    let s := { s with tr := t }
+    let exists_ := s.store.find? (·.name == nm)
+    let kind : Option ErrKind := match e with | some k => some k | none => if exists_.isSome then some .alreadyExists else none
+    match kind with
+    | none =>
+      let r := { fresh with name := nm, hashNum := h.hashNumOf fresh.data cc }
+      ({ s with store := insertByName r s.store }, some (r, cc))
+    | some .alreadyExists =>
+      let (t, e) := s.tr.call plan s!"get:rev:{nm}"
+      let s := { s with tr := t }
+      match e, exists_ with
+      | none, some ex => if ex.data == fresh.data then (s, some (ex, cc)) else createRevLoopF h plan fresh fuel (cc + 1) s
+      | _, _ => (s, none)
+    | some _ => (s, none)
+
+/-- `getStatefulSetRevisions` (control.go). `revs` is the sorted listing. Returns (current, update, collision count). -/
+def getRevisionsF (h : Hashing) (plan : List Fault) (template statusCurrentRev : String) (cc0 : Int)
+    (revs : List Rev) (s : RevSt) : RevSt × Option (Rev × Rev × Int) :=
+  let fresh : Rev := { name := h.nameOf template cc0, number := nextRevision revs, ctime := 0, data := template,
+                       hashNum := h.hashNumOf template cc0, owner := .self, selMatch := true, marker := false }
+  let eq := revs.filter (fun r => equalRev r fresh)
+  let pick : RevSt × Option (Rev × Int) :=
+    match eq.getLast?, revs.getLast? with
+    | some e, some l =>
+      if equalRev l e then (s, some (l, cc0))
+      else if e.number == fresh.number then (s, some (e, cc0))
+      else
+        let (s, ok) := renumberF plan e.name fresh.number 4 s
+        (s, if ok then some ({ e with number := fresh.number }, cc0) else none)
+    | _, _ => createRevLoopF h plan fresh (s.store.length + 8) cc0 s
+  match pick with
+  | (s, none) => (s, none)
+  | (s, some (upd, cc)) => (s, some ((revs.find? (·.name == statusCurrentRev)).getD upd, upd, cc))
+
+/-- status write: RetryOnConflict(DefaultRetry), 5 attempts; `gone` = the object no longer exists in the API (NotFound) -/
+def statusWriteF (plan : List Fault) (gone : Bool) : Nat → Tr → Tr × Bool
+  | 0, t => (t, false)
+  | fuel + 1, t =>
+    let (t, e) := t.call plan "updatestatus"
+    match e with
+    | none => (t, !gone)
+    | some .conflict => if fuel == 0 then (t, false) else statusWriteF plan gone fuel t
+    | some _ => (t, false)
+
+/-- `truncateHistory` (control.go) -/
+def truncateF (plan : List Fault) (limit : Option Int) (podRevs : List String) (revs : List Rev) (cur upd : Rev)
+    (s : RevSt) : RevSt × Outcome :=
+  let live := cur.name :: upd.name :: podRevs
+  -- an orphan that was not adopted (the set is being deleted) is not history
+  let history := revs.filter (fun r => !live.contains r.name && r.owner == .self)
+  match limit with
+  | none => (s, .panic "nil *Spec.RevisionHistoryLimit (stateful_set_control.go)")
+  | some lim =>
+    if (history.length : Int) ≤ lim then (s, .ok)
+    else
+      let victims := history.take (history.length - lim.toNat)
+      let (s, ok) := foldOk victims s fun s r =>
+        let (t, e) := s.tr.call plan s!"delete:rev:{r.name}"
+        let s := { s with tr := t }
+        if e.isSome || !(s.store.any (·.name == r.name)) then (s, false)
+        else ({ s with store := s.store.filter (·.name != r.name) }, true)
+      (s, if ok then .ok else .err)
 
 structure SyncIn where
-  found      : Bool                 -- set present in the lister
+  setName    : String
   paused     : Bool
   selectorOk : Bool                 -- LabelSelectorAsSelector succeeds
   view       : SetView
   stored     : Status               -- set.Status as cached
-  statusCurrentRev : String
-  collisionCount : Int
+  collisionCount : Option Int       -- set.Status.CollisionCount
   historyLimit : Option Int
   template   : String
-  freshUidOk : Bool                 -- uncached GET returns the set with the same uid
-  freshDeleting : Bool              -- … and it carries a deletion timestamp
+  fresh      : Fresh
   store      : List Rev             -- ControllerRevisions in the API, name order
-  pods       : List CPod            -- pod cache
-  now        : Int
+  pods       : List CPod            -- pod lister order
 
 structure SyncOut where
-  store    : List Rev := []          -- ControllerRevisions in the API afterwards
-  cur      : String := ""            -- names the reconcile resolved (empty if it did not get that far)
-  upd      : String := ""
-  claimed  : List Pod := []
-  revCalls : List RevCall := []
-  patches  : List PodPatch := []
-  acts     : List Action := []
-  status   : Option Status := none
-  outcome  : Outcome := .ok
+  log     : List String := []
+  status  : Option Status := none          -- the status written, if any
+  cc      : Option Int := none             -- collision count carried by that status
+  store   : List Rev := []                 -- ControllerRevisions in the API afterwards
+  cur     : String := ""                   -- revisions the reconcile resolved ("" when it did not get that far)
+  upd     : String := ""
+  claimed : List CPod := []
+  acts    : List Action := []
+  outcome : Outcome := .ok
   deriving Repr
 
-/-- `sync` (stateful_set.go:456-502) followed by `UpdateStatefulSet` (control.go:90-133) -/
-def sync (h : Hashing) (i : SyncIn) (revFails : RevCall → Bool) (patchRes : PodPatch → PatchResult)
-    (f : Faults) (statusWriteFails : Bool) : SyncOut :=
-  if !i.found || i.paused || !i.selectorOk then {} else
-  match adoptOrphanRevisions revFails i.freshUidOk { store := i.store } with
-  | (o, .ok) =>
-    let c := claimPods i.view.deleting (i.freshUidOk && !i.freshDeleting) patchRes i.pods
-    if c.failed then { store := o.store, revCalls := o.calls, patches := c.patches, outcome := .err } else
-    -- UpdateStatefulSet
-    let o := { o with calls := o.calls ++ [.list] }
-    if revFails .list then { store := o.store, revCalls := o.calls, patches := c.patches, outcome := .err } else
-    let revs := sortRevs (listRevisions o.store)
-    match getRevisions h revFails i.template i.statusCurrentRev i.collisionCount i.now revs o with
-    | .error (o, out) => { store := o.store, claimed := c.claimed, revCalls := o.calls, patches := c.patches, outcome := out }
-    | .ok (o, cur, upd, _cc) =>
-      match reconcileAndStatus i.view i.stored cur.name upd.name c.claimed f statusWriteFails with
-      | (acts, st, .ok) =>
-        let (o, out) := truncateHistory revFails i.historyLimit (c.claimed.map (·.rev)) revs cur upd o
-        { store := o.store, cur := cur.name, upd := upd.name, claimed := c.claimed, revCalls := o.calls, patches := c.patches, acts := acts, status := st, outcome := out }
-      | (acts, st, out) => { store := o.store, cur := cur.name, upd := upd.name, claimed := c.claimed, revCalls := o.calls, patches := c.patches, acts := acts, status := st, outcome := out }
-  | (o, out) => { store := o.store, revCalls := o.calls, outcome := out }
+def canonicalName (setName : String) (o : Int) : String := s!"{setName}-{o}"
+
+/-- `UpdateStatefulPod` on a pod whose name is canonical: RetryOnConflict(DefaultBackoff), 4 attempts, each starting from
+    a fresh copy out of the pod cache; returns (number of Update calls, success) -/
+def updateAttempts (plan : List Fault) (key : String) : Nat → Nat → Nat × Bool
+  | 0, n => (n, false)
+  | fuel + 1, n =>
+    match (plan.find? (fun f => f.key == key && f.occ == n)).map (·.kind) with
+    | none => (n + 1, true)
+    | some .conflict => updateAttempts plan key fuel (n + 1)
+    | some _ => (n + 1, false)
+
+/-- the claimed pod that ends up in `replicas[o]` (the last one that parses to `o`) -/
+def occupantAt (claimed : List CPod) (b : Int) (E : List Int) (o : Int) : Option CPod :=
+  (claimed.filter (fun q => q.pod.ord == o && inRange b E q.pod.ord)).getLast?
+
+/-- `UpdateStatefulPod` at ordinal `o`: (number of Update calls, success).
+    A pod with a non-canonical name (`web-03`) is renamed in place by `updateIdentity` before the single Update call; that
+    call answers NotFound unless an object with the canonical name exists; after a Conflict the refresh from the cache
+    finds nothing under the new name, the retry sees the already-renamed copy as consistent and returns success without
+    another call. -/
+def updateResult (setName : String) (plan : List Fault) (pods claimed : List CPod) (b : Int) (E : List Int) (o : Int) : Nat × Bool :=
+  let key := s!"update:pod:{canonicalName setName o}"
+  match occupantAt claimed b E o with
+  | some c =>
+    if c.name != canonicalName setName o then
+      match (plan.find? (fun f => f.key == key && f.occ == 0)).map (·.kind) with
+      | some ErrKind.conflict => (1, true)
+      | some _ => (1, false)
+      | none => (1, pods.any (·.name == canonicalName setName o))
+    else updateAttempts plan key 4 0
+  | none => updateAttempts plan key 4 0
+
+/-- name under which the pod control addresses the target of an action -/
+def actName (setName : String) (claimed : List CPod) : Action → String
+  | .create o _ => canonicalName setName o
+  | .update o => canonicalName setName o              -- `updateIdentity` renames the copy before the Update call
+  | .delete o id _ => ((claimed.find? (·.pod.id == id)).map (·.name)).getD (canonicalName setName o)
+
+/-- pod-control calls as log entries -/
+def actLog (setName : String) (plan : List Fault) (pods claimed : List CPod) (b : Int) (E : List Int) : Action → List String
+  | .create o r => [s!"create:pod:{actName setName claimed (.create o r)}"]
+  | .delete o id w => [s!"delete:pod:{actName setName claimed (.delete o id w)}"]
+  | .update o => List.replicate (updateResult setName plan pods claimed b E o).1 s!"update:pod:{canonicalName setName o}"
+
+/-- the reconcile-level fault plan implied by the API-level one, plus the API-world fact that `create S-i` answers
+    AlreadyExists while some pod object still holds that name -/
+def podFaults (setName : String) (plan : List Fault) (pods claimed : List CPod) (b : Int) (E : List Int) : Faults :=
+  let ordOfName (n : String) : Option Int :=
+    match pods.find? (·.name == n) with
+    | some c => some c.pod.ord
+    | none => ((List.range 64).map Int.ofNat).find? (fun o => canonicalName setName o == n)
+  let fromPlan : Faults := plan.filterMap fun f =>
+    match f.key.splitOn ":" with
+    | [verb, "pod", n] =>
+      if f.occ != 0 then none else
+      (ordOfName n).bind fun o =>
+        if verb == "create" then some (0, o)
+        else if verb == "delete" then some (1, o)
+        else none
+    | _ => none
+  -- an update ultimately fails iff its retry loop does
+  let updFaults : Faults := ((List.range 64).map Int.ofNat).filterMap fun o =>
+    if (updateResult setName plan pods claimed b E o).2 then none else some (2, o)
+  -- names still held: every pod with a canonical name, except a claimed pod that occupies its own slot
+  let occupant (c : CPod) : Bool := ((occupantAt claimed b E c.pod.ord).map (·.pod.id)) == some c.pod.id
+  let squat : Faults := (pods.filter (fun c => c.name == canonicalName setName c.pod.ord && !(claimed.any (·.pod.id == c.pod.id) && occupant c))).map (fun c => (0, c.pod.ord))
+  fromPlan ++ updFaults ++ squat
+
+def syncF (h : Hashing) (i : SyncIn) (plan : List Fault) : SyncOut :=
+  if i.paused || !i.selectorOk then { store := i.store } else
+  match adoptOrphanRevisionsF plan i.view.deleting i.fresh { store := i.store } with
+  | (s, .ok) =>
+    let c := claimPodsF plan i.view.deleting i.fresh i.pods s.tr
+    let s := { s with tr := c.tr }
+    if c.failed then { log := s.tr.log, store := s.store, outcome := .err } else
+    match listRevsF plan s with
+    | (s, none) => { log := s.tr.log, store := s.store, claimed := c.claimed, outcome := .err }
+    | (s, some listed) =>
+    let revs := sortRevs listed
+    match getRevisionsF h plan i.template i.stored.currentRev (i.collisionCount.getD 0) revs s with
+    | (s, none) => { log := s.tr.log, store := s.store, claimed := c.claimed, outcome := .err }
+    | (s, some (cur, upd, cc)) =>
+      let (b, E) := maxReplicaAndSlots (i.view.replicas.getD 0) i.view.slots
+      let pf := podFaults i.setName plan i.pods c.claimed b E
+      let (st, out) := updateStatefulSet i.view cur.name upd.name (c.claimed.map (·.pod)) pf
+      let s := { s with tr := { log := s.tr.log ++ (st.acts.map (actLog i.setName plan i.pods c.claimed b E)).flatten } }
+      let base : SyncOut := { cur := cur.name, upd := upd.name, claimed := c.claimed, acts := st.acts }
+      match out with
+      | .ok =>
+        let status := completeRollingUpdate i.view st.status
+        if inconsistentStatus i.stored status then
+          let (t, ok) := statusWriteF plan i.fresh.gone 5 s.tr
+          let s := { s with tr := t }
+          if !ok then { base with log := s.tr.log, store := s.store, outcome := .err } else
+          let (s, out) := truncateF plan i.historyLimit (c.claimed.map (·.pod.rev)) revs cur upd s
+          { base with log := s.tr.log, store := s.store, status := some status, cc := some cc, outcome := out }
+        else
+          let (s, out) := truncateF plan i.historyLimit (c.claimed.map (·.pod.rev)) revs cur upd s
+          { base with log := s.tr.log, store := s.store, outcome := out }
+      | o => { base with log := s.tr.log, store := s.store, outcome := o }
+  | (s, out) => { log := s.tr.log, store := s.store, outcome := out }
 
 end Asts
